@@ -19,7 +19,7 @@ RULE = ("Hypothesis: general graphs x class-based targets x 6 switches x thresho
         "must be equal under the mapping table of the property.  Non-trivial: >=1 constraint with cardinality other than 1 and >=1 "
         "non-literal constraint; distinct by SHA-1 of the case.")
 ASSUMPTIONS = c01.ASSUMPTIONS + ["rdflib 6.0.2 parses the SHACL Turtle"]
-BUDGET = {"quick": {"examples": 9600, "wall": 180}, "thorough": {"examples": 300000, "wall": 5400}}
+BUDGET = {"quick": {"examples": 9600, "wall": 180}, "thorough": {"examples": 120000, "wall": 900}}
 FLOORS = {"nontrivial": 0.3}
 SH = "http://www.w3.org/ns/shacl#"
 
